@@ -92,6 +92,59 @@ def _consts(expr, acc, seen):
             todo.extend(e.children())
 
 
+def _ground_axioms(eng, formulas):
+    import z3
+    from .engine import FIELDS
+    alloc0 = z3.Int("alloc0")
+    out, seen = [], set()
+    todo = list(formulas)
+    while todo:
+        e = todo.pop()
+        if e.get_id() in seen:
+            continue
+        seen.add(e.get_id())
+        if z3.is_quantifier(e):
+            todo.append(e.body())
+            continue
+        if not z3.is_app(e):
+            continue
+        todo.extend(e.children())
+        if e.decl().kind() != z3.Z3_OP_SELECT:
+            continue
+        a, t = e.arg(0), e.arg(1)
+        if _has_var(t):
+            continue
+        if z3.is_const(a) and a.decl().kind() == z3.Z3_OP_UNINTERPRETED:
+            nm = a.decl().name()
+            if nm == "H0_len":
+                out.append(z3.And(e >= 0, e <= eng.ground))
+            elif nm.startswith("H0_") and nm[3:] in FIELDS and FIELDS[nm[3:]][0] in ("ref", "list"):
+                lo = 0 if FIELDS[nm[3:]][0] == "ref" else 1
+                out.append(z3.Implies(z3.And(t > 0, t < alloc0), z3.And(e >= lo, e < alloc0)))
+        elif z3.is_app(a) and a.decl().kind() == z3.Z3_OP_SELECT and z3.is_const(a.arg(0)) \
+                and a.arg(0).decl().name() == "H0_LR" and not _has_var(a.arg(1)):
+            l = a.arg(1)
+            out.append(z3.Implies(z3.And(l > 0, l < alloc0), z3.And(e >= 0, e < alloc0)))
+    return out
+
+
+def _has_var(e):
+    import z3
+    todo, seen = [e], set()
+    while todo:
+        x = todo.pop()
+        if x.get_id() in seen:
+            continue
+        seen.add(x.get_id())
+        if z3.is_var(x):
+            return True
+        if z3.is_quantifier(x):
+            todo.append(x.body())
+        elif z3.is_app(x):
+            todo.extend(x.children())
+    return False
+
+
 def _solve(eng, obl, timeout_ms, want_model=False):
     import z3
     acc, seen = set(), set()
@@ -109,7 +162,12 @@ def _solve(eng, obl, timeout_ms, want_model=False):
     s = z3.Solver()
     s.set("timeout", timeout_ms)
     s.add(*obl.hyps)
-    s.add(*eng.heap_axioms(z3.Int("alloc0"), fields))
+    if eng.ground is None:
+        s.add(*eng.heap_axioms(z3.Int("alloc0"), fields))
+    else:
+        # grounded (refutation) mode: the heap axioms are instantiated on the
+        # ground select-terms of the query, so that the query is quantifier free
+        s.add(*_ground_axioms(eng, list(obl.hyps) + [obl.goal]))
     s.add(z3.Not(obl.goal))
     t = time.time()
     r = s.check()
@@ -187,7 +245,7 @@ def verify_one(args):
         sources, classes = load_sources()
         contracts = all_contracts()
         con = contracts[name]
-        timeout = 10000 if tier == "quick" else 60000
+        timeout = 6000 if tier == "quick" else 60000
         eng = Verifier(sources, classes, contracts, ground=None, mode=mode)
         eng.covers = []
         if con.name not in sources:
